@@ -564,7 +564,9 @@ func (p *jsonPathParser) _createBasicCompareQuery(
 func (p *jsonPathParser) pushCompareEQ(
 	leftParam, rightParam *syntaxBasicCompareParameter) {
 	if leftParam.isLiteral {
-		rightParam, leftParam = leftParam, rightParam
+		if _, ok := rightParam.param.(*syntaxQueryParamLiteral); !ok {
+			rightParam, leftParam = leftParam, rightParam
+		}
 	}
 
 	if rightLiteralParam, ok := rightParam.param.(*syntaxQueryParamLiteral); ok {
